@@ -77,8 +77,11 @@ def main():
         if os.path.exists(mp):
             metas.setdefault(n[:3], []).append((n, json.load(open(mp))))
     os.makedirs("/tmp/wt", exist_ok=True)
+    only = set(os.environ.get("SEED_PIDS", "").split()) or None      # optional: prepare only these properties
     for p in props:
         pid = p["id"]
+        if only and pid not in only:
+            continue
         wt = f"/tmp/wt/{pid}{suffix}"
         subprocess.run(["git", "-C", "/repo", "worktree", "add", "--detach", wt, "HEAD"], check=True, capture_output=True)
         with open(os.path.join(wt, "PROPERTY.txt"), "w") as f:
